@@ -282,6 +282,7 @@ class Interp:
         self.trace_calls = []
         self.globals = {}
         self.path_alias = {}  # path parts -> replacement value
+        self.pred_exprs = {}  # fork key -> (Rat diff, op) for data-dependent numeric predicates met on this path
         self.call_hook = None  # optional: (interp, dotted, args, kwargs, node) -> value | NotImplemented
 
     # ---------------------------------------------------------------- helpers
@@ -397,6 +398,7 @@ class Interp:
         if isinstance(v, Rat):
             if v.is_const():
                 return v.const_value() != 0
+            self.pred_exprs["nonzero:" + str(v)] = (v, "!=")
             return self.fork("nonzero:" + str(v))
         if isinstance(v, (PList,)):
             return bool(v.items)
@@ -955,7 +957,9 @@ class Interp:
             if aff is not None:
                 return self.decide_month_cmp(aff, opname, node)
             # data-dependent predicate: canonical key `diff op 0`
-            return self.fork(f"({diff}) {opname} 0")
+            key = f"({diff}) {opname} 0"
+            self.pred_exprs[key] = (diff, opname)
+            return self.fork(key)
         if isinstance(a, (PList, tuple)) and isinstance(b, (PList, tuple)) and opname in ("==", "!="):
             return (canon(a) == canon(b)) ^ (opname == "!=")
         if a is None or b is None:
